@@ -25,7 +25,7 @@ def sh(cmd, **kw):
 def scratch_main(dirs):
     """Same, but on a scratch worktree of /repo's HEAD (used while other work needs /repo untouched)."""
     rc_all = 0
-    wt, bd = "/tmp/seedrun-wt", "/tmp/seedrun-build"
+    wt, bd = "/tmp/seedrun-wt-%d" % os.getpid(), "/tmp/seedrun-build-%d" % os.getpid()
     for d in dirs:
         d = os.path.abspath(d)
         meta = json.load(open(os.path.join(d, "meta.json")))
